@@ -15,7 +15,7 @@ class World:
         self.enums = {}
         t0 = time.time()
         for c in crates:
-            d = dump.dump(c, profile, verbose=True, expanded=(c == 'syntax'), rundir=self.rundir)
+            d = dump.dump(c, profile, verbose=True, expanded=(c in ('syntax', 'glas')), rundir=self.rundir)
             self.dumps[c] = d
             text = open(d['mir'], encoding='utf-8').read()
             vtext = open(d['mir_v'], encoding='utf-8').read()
